@@ -15,6 +15,7 @@ mod c15;
 mod lg;
 mod show;
 mod c08;
+mod c06;
 mod inputs;
 
 #[path = "/repo/harper-ls/src/git_commit_parser.rs"]
@@ -55,6 +56,7 @@ fn main() {
         "show" => show::main(&a),
         "c14" => lg::c14(&a),
         "c08" => c08::main(&a),
+        "c06" => c06::main(&a),
         other => {
             eprintln!("unknown subcommand {other}");
             std::process::exit(2);
